@@ -16,10 +16,10 @@ META = {
     'technique': 'exhaustive enumeration of real ancestor chains x name lists against an independent /proc/<pid>/status oracle',
     'text': 'All chains up to the depth bound over 9 special names (and depth 8/12 chains with the match at every position) x all lists up to the length bound (plus 50-item lists) are executed with real processes; '
             'drop iff some ancestor (parent or higher, never the process itself, pid 1 included) has a name equal to a non-empty list item; with /proc hidden every list passes.',
-    'note': 'The bottom process carries a listed name itself in half of the cases (self must not count). Empty kernel names are outside the generated alphabet.',
+    'note': 'The bottom process carries a listed name itself in half of the cases (self must not count).',
 }
 NATIVE = os.path.join(VERIF, 'native')
-NAMES = [b'a', b'a b', b'(x)', b'x)', b')(', b'fifteen_bytes_n', b'cron', b'cro', b'crond', b'l\nf', b' lead', b'trail ', b'a) S 1 \n']
+NAMES = [b'', b'a', b'a b', b'(x)', b'x)', b')(', b'fifteen_bytes_n', b'cron', b'cro', b'crond', b'l\nf', b' lead', b'trail ', b'a) S 1 \n']
 ITEMS = NAMES + [b'', b'sixteen_bytes_nam', b'n' * 40, b'a) S 1 (b']
 
 
